@@ -136,3 +136,8 @@ _push('C08', 'Lean 4 proof (backup loop = LIFO undo chain per patch; last write 
       'Theorems C08_calls, C08_backup_is_prestate, C08_backups_total, C08_window, C08_modes for all workspaces. The real .pc/<patch>/<file> '
       'files (bytes and modes) and .pc/applied-patches must equal pushSpec\'s for backup modes always/onfail/never, counts all/0/1/2/100, '
       'renames, creates, deletes, repeated files.')
+
+_push('C18', 'Lean 4 proof (invariant: no driver function turns a failed operation into success; applied-patches recorded last) + fault injection at every output operation of real runs',
+      'Theorems C18_fault_is_error / C18_success_means_no_fault / C18_recorded_last for all workspaces, configurations and fault positions k. '
+      'Real runs: the k-th write operation (modified file, reject, backup, applied-patches, directory) is failed by the hook for every k; exit must '
+      'be 1, no panic, applied-patches untouched, the message must name the file.', ' Faults are injected at operation granularity.')
